@@ -152,12 +152,12 @@ def run(ctx):
         f.write('SPECIFICATION Spec\nCONSTANTS\n  Nodes = {8, 16, 22, 28, 40, 60}\n  Opac = %s\n'
                 '  Queries = {4, 8, 12, 16, 19, 22, 25, 28, 34, 40, 50, 60, 70}\n  MaxNodes = %d\n  MaxConv = %d\n  SampleMod = %d\n  SampleRes = %d\n'
                 'INVARIANT ExactAtV\nINVARIANT ZeroOutside\nINVARIANT ScaleInvariant\nINVARIANT AtNodes\nINVARIANT NonPositive\nINVARIANT EmitInv\n'
-                'PROPERTY TableNeverChanges\nCHECK_DEADLOCK FALSE\n' % ('{1, 2, 4}' if q else '{1, 2, 3, 4}', 5 if q else 6, 2, mod, ctx.seed % mod))
+                'PROPERTY TableNeverChanges\nCHECK_DEADLOCK FALSE\n' % ('{1, 2, 4}' if q else '{1, 2, 3, 4}', 5, 2, mod, ctx.seed % mod))
     res = model_check(ctx, 'Extinction', cfg, timeout=3000, coverage=False)
     em = res['emitted']
     if not em:
         raise MachineryError('no behaviours emitted')
-    ctx.notes['mc_constants'] = 'tables of 2..%d nodes out of {0.2,0.4,0.55,0.7,1.0,1.5} um (V on a node or between), opacities 1..4, 13 query wavelengths, all sequences of 2 of 8 representation changes' % (5 if q else 6)
+    ctx.notes['mc_constants'] = 'tables of 2..5 nodes out of {0.2,0.4,0.55,0.7,1.0,1.5} um (V on a node or between), opacities %s, 13 query wavelengths, all sequences of 2 of 8 representation changes' % ('{1,2,4}' if q else '1..4')
     ctx.notes['behaviours_emitted'] = len(em)
     ctx.sample({'behaviour': em[len(em) // 2]})
     tmpdir = ctx.mkdtemp('law')
